@@ -102,7 +102,7 @@ func c13Cases(tier string) []c13Case {
 			out = append(out, c13Case{Name: n, Kind: "string", Value: v, Twin: true})
 		}
 	}
-	partsets := [][]string{{"a"}, {"a", "b"}, {".", "bin"}, {"..", "x"}, {""}, {"", "a"}, {"a", ""}, {"a", "..", "b"}, {"a/b", "c"}, {"a", ".", "b"}, {"./a/", "b/"}, {"..", ".."}, {}}
+	partsets := [][]string{{"a"}, {"a", "b"}, {".", "bin"}, {"..", "x"}, {""}, {"", "a"}, {"a", ""}, {"a", "..", "b"}, {"a/b", "c"}, {"a", ".", "b"}, {"./a/", "b/"}, {"..", ".."}, {}, {"/abs", "x"}, {"a", "/b"}, {"a", "b", "c", "d"}, {"a//b", "./c/../d"}}
 	for _, ps := range partsets {
 		for _, n := range []string{"V", "HOME"} {
 			for _, nested := range []bool{false, true} {
@@ -143,7 +143,11 @@ func c13Run(root string, c c13Case) (obs []c13Obs, inv int) {
 	want := c.Value
 	switch c.Kind {
 	case "join":
-		want = filepath.Join(append([]string{cwd}, c.Parts...)...)
+		// "the absolute cleaned join of its arguments": relative results are relative to the working directory
+		want = filepath.Join(c.Parts...)
+		if !filepath.IsAbs(want) {
+			want = filepath.Join(cwd, want)
+		}
 	case "execfail":
 		o := bin.Run(cwd, home, env, "envt", "--json")
 		inv++
